@@ -236,6 +236,31 @@ func (g *c13gen) structOf(depth int, allowOpen bool) *cty {
 			f.viaDef = true
 		}
 		t.fields = append(t.fields, f)
+		// now and then a sibling that differs from this field only in letter case, with another type:
+		// both are declared, each is addressed by its exact spelling
+		if (form == "reg" || form == "opt") && r.Intn(6) == 0 {
+			variant := strings.ToUpper(name)
+			if variant == name {
+				variant = strings.ToLower(name)
+			}
+			if r.Intn(2) == 0 && len(name) > 1 {
+				variant = strings.ToUpper(name[:1]) + name[1:]
+				if variant == name {
+					variant = strings.ToLower(name[:1]) + name[1:]
+				}
+			}
+			if variant != name {
+				var ty2 *cty
+				if ty.kind == "struct" {
+					ty2 = g.leaf()
+				} else if depth > 0 {
+					ty2 = g.structOf(depth-1, false)
+				} else {
+					ty2 = &cty{kind: "list", open: true, elem: &cty{kind: "bool"}}
+				}
+				t.fields = append(t.fields, cfield{name: variant, form: "reg", ty: ty2})
+			}
+		}
 	}
 	if allowOpen && r.Intn(6) == 0 {
 		t.open = true
